@@ -199,9 +199,15 @@ def run(prog, check):
     if not getattr(check, '_borrowing', False):
         from ..report import Borrowed
         from . import C01 as _c01
-        b01 = Borrowed(check, lambda rule, key: rule == 'C01.R1' and 'extsector()' in key, 'C07.R2',
+        b01 = Borrowed(check, lambda rule, key: rule == 'C01.R1' and ('extsector()' in key or 'ext(XR)' in key or 'samezone(' in key), 'C07.R2',
                        'a gold purchase / cross-currency flow: payer debited x, intermediary credited x in the same currency')
         _c01.run(prog, b01)
+    # which flows cross a currency boundary is decided by the identity of the currency codes (the clause C18.R3 decides: equality only)
+    if not getattr(check, '_borrowing', False):
+        from . import C18 as _c18
+        b18 = Borrowed(check, lambda rule, key: rule == 'C18.R3' and 'currency-identity-is-equality' in key, 'C07.R4',
+                       "currencies 'AUS' and 'US': a flow between them must be converted, or refused without an external sector")
+        _c18.run(prog, b18)
     check.floor('C07.R1', 3)
     check.floor('C07.R2', 4)
     check.floor('C07.R3', 2)
